@@ -83,7 +83,14 @@ class PROP(Prop):
         msrc = ast.unparse(mk)
         pos = [msrc.find("self.allocate_id(spec)")] + [msrc.find(x) for x in ("create_io(", "remote_exec(gateway_io)")]
         out.append(("static/Group.makegateway/id-allocated-before-any-process-is-started", pos[0] >= 0 and all(p < 0 or pos[0] < p for p in pos[1:]), f"positions {pos}"))
-        reg = [msrc.find("gw.spec = spec"), msrc.find("self._register(gw)")] + [p_ for p_ in (msrc.find("gw.remote_exec("), msrc.find("channel.send("), msrc.find("channel.waitclose(")) if p_ >= 0]
+        import re
+
+        def first(pat):
+            m_ = re.search(pat, msrc)
+            return m_.start() if m_ else -1
+
+        # uses of the NEW gateway: gw.remote_exec(...) and the configuration channel it returns (not proxy_channel.send(...) of the via branch)
+        reg = [msrc.find("gw.spec = spec"), msrc.find("self._register(gw)")] + [p_ for p_ in (first(r"(?<![\w.])gw\.remote_exec\("), first(r"(?<![\w.])channel\.send\("), first(r"(?<![\w.])channel\.waitclose\(")) if p_ >= 0]
         out.append(("static/Group.makegateway/registered-before-the-gateway-is-configured", reg[0] >= 0 and reg[1] > reg[0] and all(reg[1] < p_ for p_ in reg[2:]),
                     f"positions {reg}: a failing chdir/nice/env step must find the gateway registered, so that terminate() reaps it"))
         gio = extract.load(GIO)
